@@ -255,6 +255,16 @@ def gen_scenario(ch, prof):
         for gr in groups:
             gr["params"]["resource_monitor_stats"] = dict(rms)
         sc["stat_patterns"] = ["increasing", "decreasing", "constant", "zero", "random", "spiky", "spiky"]
+    if ngroups == 1 and prof.get("cli_params", True) and max_nodes != 1 and g.flip(0.25):
+        # the common way to use JADE: a configuration without submission groups, every parameter given on
+        # the submit-jobs command line (cli/common.py make_submitter_params builds the default group)
+        gr = groups[0]
+        gr["name"] = "default"
+        p_ = gr["params"]
+        p_["poll_interval"] = min(p_["poll_interval"], p_["resource_monitor_interval"])  # documented adjustment
+        if p_["time_based_batching"]:
+            p_["per_node_batch_size"] = 500  # the two options are mutually exclusive on the command line
+        sc["cli_params"] = True
     sc["groups"] = groups
     # group-wide: all groups must share generate_reports etc? only max_nodes/poll_interval must match.
     jobs = []
@@ -280,6 +290,7 @@ def gen_scenario(ch, prof):
             "append_job_name": g.flip(0.3) if quoting else False,
             "append_output_dir": g.flip(0.3) if quoting else False,
             "events": g.rint(1, 3) if g.flip(prof.get("p_job_events", 0.0)) else 0,
+            "event_name": g.pick(["user_event", "user_event", "sim.started", "sim.finished", "sim"]),
         }
         if grp["params"]["time_based_batching"]:
             job["est"] = g.rint(1, grp["wall_min"])
@@ -294,6 +305,8 @@ def gen_scenario(ch, prof):
                            "dur": g.pick([0.0, 0.5, 20.0])}
     sc["hooks"] = hooks
     sc["env"] = gen_env(g, prof)
+    if quoting and g.flip(0.3):
+        sc["env"]["stale_jade_env"] = True
     # spontaneous user commands that compete for the submitter role
     user = []
     for _ in range(g.weighted([(0, 3), (1, 2), (2, 1), (4, 1)]) if prof.get("user_cmds", True) and mode == "hpc" else 0):
@@ -326,7 +339,8 @@ def build_job_config(sc, jobs, groups, hooks, path):
     from jade.models import SubmissionGroup, SubmitterParams
 
     sgs = []
-    for grp in groups:
+    cli = bool(sc.get("cli_params"))
+    for grp in ([] if cli else groups):
         sgs.append(SubmissionGroup(name=grp["name"], submitter_params=SubmitterParams(**grp["params"])))
     kwargs = {}
     for kind, attr in (("setup", "setup_command"), ("teardown", "teardown_command"),
@@ -341,8 +355,10 @@ def build_job_config(sc, jobs, groups, hooks, path):
         if j.get("int_blockers"):
             blockers = [int(b) for b in blockers]
         kw = dict(command=j["command"], blocked_by=set(blockers),
-                  cancel_on_blocking_job_failure=bool(j["cancel"]), submission_group=j["group"],
+                  cancel_on_blocking_job_failure=bool(j["cancel"]),
                   append_job_name=bool(j.get("append_job_name")), append_output_dir=bool(j.get("append_output_dir")))
+        if not cli:
+            kw["submission_group"] = j["group"]
         if j.get("explicit_name"):
             kw["name"] = j["name"]
         if j.get("est") is not None:
@@ -355,6 +371,50 @@ def build_job_config(sc, jobs, groups, hooks, path):
 def materialise(sc, world):
     """Write the config file(s) of the scenario into the world's shared directory."""
     build_job_config(sc, sc["jobs"], sc["groups"], sc.get("hooks", {}), world.config_file)
+    if sc.get("cli_params") and sc["groups"][0]["params"]["hpc_config"]["hpc_type"] != "local":
+        import json
+        import os
+
+        with open(os.path.join(os.path.dirname(world.config_file), "hpc_config.json"), "w") as f:
+            json.dump(sc["groups"][0]["params"]["hpc_config"], f, indent=2)
+
+
+def submit_argv(sc, config_file, output):
+    """The submit-jobs command line of the scenario."""
+    argv = ["jade", "submit-jobs", config_file, "-o", output]
+    if not sc.get("cli_params"):
+        return argv
+    import os
+
+    p = sc["groups"][0]["params"]
+    if p["hpc_config"]["hpc_type"] == "local":
+        argv.append("-l")
+    else:
+        argv += ["-h", os.path.join(os.path.dirname(config_file), "hpc_config.json")]
+    if p.get("time_based_batching"):
+        argv.append("--time-based-batching")
+    else:
+        argv += ["-b", str(p["per_node_batch_size"])]
+    if p.get("max_nodes") is not None:
+        argv += ["-n", str(p["max_nodes"])]
+    argv += ["-p", str(p["poll_interval"])]
+    if p.get("num_parallel_processes_per_node") is not None:
+        argv += ["-q", str(p["num_parallel_processes_per_node"])]
+    argv.append("--try-add-blocked-jobs" if p.get("try_add_blocked_jobs") else "--no-try-add-blocked-jobs")
+    argv.append("--reports" if p.get("generate_reports") else "--no-reports")
+    argv += ["-R", str(p.get("resource_monitor_type", "none")), "-r", str(p["resource_monitor_interval"])]
+    rms = p.get("resource_monitor_stats")
+    if rms:
+        for k in ("cpu", "memory", "disk", "network", "process"):
+            if rms.get(k):
+                argv += ["--resource-monitor-stats", k]
+    if not p.get("distributed_submitter", True):
+        argv.append("--no-distributed-submitter")
+    if p.get("verbose"):
+        argv.append("--verbose")
+    if p.get("dry_run"):
+        argv.append("--dry-run")
+    return argv
 
 
 def summary(sc):
